@@ -22,8 +22,9 @@ Floating point: a modifier is the `f64` quotient `a / den` of two small integers
 a threshold the `f64` sum of the products `total * modifier`.  The model keeps the
 numerators `a` and the common denominator `den` and compares a prefix sum `P` with the
 threshold `total * A / den` (`A` = running sum of numerators) by cross-multiplication
-`total * A < P * den`.  `Ulps::default().eq(threshold, x)` is modelled as equality
-(`x ≤ threshold` in the loop condition `x < threshold || ulps_eq`).  The driver evaluates
+`total * A < P * den`.  `Ulps::default().eq(threshold / total, x / total)` (since f7a6b90 both
+sides are divided by the slab's total, defect N7) is modelled as equality (`x ≤ threshold` in
+the loop condition `x < threshold || ulps_eq`).  The driver evaluates
 the real `f64` expressions next to the exact ones and declines (`skip float-sensitive`)
 when they would decide differently.
 -/
